@@ -1,4 +1,5 @@
 import Platypus.Model.Basic
+import Platypus.Model.Utf8
 /-!
 pkg/engine/runtimev2/funcs.go: CheckFnParamDef, CheckPassParam, GetParam (after the fixes).
 Arguments are abstract: a positional argument or a named one, each carrying an expression id.
@@ -19,10 +20,31 @@ inductive Arg
 def isLetter (c : UInt8) : Bool := (65 ≤ c && c ≤ 90) || (97 ≤ c && c ≤ 122)
 def isDigit (c : UInt8) : Bool := 48 ≤ c && c ≤ 57
 
-/-- isValidParamName (ASCII names) -/
-def validName : Bytes → Bool
+/-- what `unicode.IsLetter` / `unicode.IsDigit` answer for one rune, given by its UTF-8 encoding
+    (0 = neither, 1 = letter, 2 = digit).  ASCII is computed; outside ASCII the Unicode tables are an
+    engine, and the model knows the runes the generators use (`none`: a rune it does not know — the
+    driver does not judge such a name).  An invalid byte decodes to U+FFFD, which is neither. -/
+def runeClass : Bytes → Option Nat
+  | [c] => some (if isLetter c then 1 else if isDigit c then 2 else 0)
+  | [0xC3, 0xA9] => some 1          -- é
+  | [0xE5, 0x90, 0x8D] => some 1    -- 名
+  | [0xD0, 0x96] => some 1          -- Ж
+  | [0xD9, 0xA1] => some 2          -- ١ (ARABIC-INDIC DIGIT ONE)
+  | [0xCC, 0x81] => some 0          -- U+0301 (combining acute accent)
+  | [0xC2, 0xA0] => some 0          -- U+00A0 (no-break space)
+  | [0xC2, 0xB2] => some 0          -- ² (a number, not a decimal digit)
+  | [0xEF, 0xBF, 0xBD] => some 0    -- U+FFFD
+  | _ => none
+
+def nameModelled (name : Bytes) : Bool := (Utf8.runesOf name).all fun r => (runeClass r).isSome
+
+/-- isValidParamName: a letter or `_`, then letters, digits and `_` — rune by rune -/
+def validName (name : Bytes) : Bool :=
+  match Utf8.runesOf name with
   | [] => false
-  | c :: r => (isLetter c || c == 95) && r.all (fun d => isLetter d || isDigit d || d == 95)
+  | r0 :: rest =>
+    (runeClass r0 == some 1 || r0 == [95]) &&
+      rest.all (fun r => runeClass r == some 1 || runeClass r == some 2 || r == [95])
 
 /-- the loop of CheckFnParamDef: state (optional seen, variadic seen, names seen) -/
 def defLoop : List Param → Nat → Nat → Bool → Bool → List Bytes → Bool
